@@ -570,6 +570,20 @@ func (cn *Conn) handle(a *Attempt) {
 	muted := cn.N.muted && cn.Started
 	cn.N.mu.Unlock()
 	if muted {
+		// the node reads the frame and never answers it: on record, so that the attempt is known to be outstanding on
+		// this (still open) connection
+		switch a.Frame.Body.Message.(type) {
+		case *message.Query:
+			if a.Token != "" {
+				c.record(a, "QUERY", Silent)
+			}
+		case *message.Execute:
+			c.record(a, "EXECUTE", Silent)
+		case *message.Batch:
+			c.record(a, "BATCH", Silent)
+		case *message.Prepare:
+			c.record(a, "PREPARE", Silent)
+		}
 		return
 	}
 	if c.Handshake != nil && c.Handshake(cn, a) {
